@@ -10,6 +10,7 @@ INVARIANT TypeOK
 INVARIANT Centred
 PROPERTY DataNeverAltered
 PROPERTY PoolOnlyGrows
+PROPERTY CopiesCarryData
 PROPERTY OneAttributeAtATime
 PROPERTY ArithMask
 PROPERTY Inheritance
